@@ -1239,6 +1239,8 @@ def _type_vars(fi: FunctionInfo, typevar: str) -> dict:
                 tv["domain"], tv["objtype"] = el[0].id, el[1].id
             elif st.value.func.attr in ("partition", "rpartition") and len(el) == 3 and isinstance(el[0], ast.Name) and isinstance(el[2], ast.Name):
                 tv["domain"], tv["objtype"] = el[0].id, el[2].id
+                if isinstance(el[1], ast.Name) and st.value.args and _cstr(st.value.args[0]) == ":":
+                    tv["sep"] = el[1].id  # non-empty exactly when the type contains ':' 
     return tv
 
 
@@ -1270,6 +1272,8 @@ def _store_guard_classes(fi: FunctionInfo, L: "EntryLoop", store, extra=()) -> l
             cls = "MATCH"
         elif any(a[0] == "in" and _cstr(a[1]) == ":" and a[3] and (_is_name(a[2], R["type"]) or (isinstance(a[2], (ast.Call, ast.Subscript)) and _mentions(a[2], {L.mvar}) and str(ROLES.index("type") + 1) in unparse(a[2]))) for a in _atom(t, pol)):
             cls = "COLON"
+        elif tvs.get("sep") and _is_name(t, tvs["sep"]) and pol:
+            cls = "COLON"  # d, sep, o = type.partition(":"): sep is truthy exactly when ':' is in the type
         elif _is_pydup_test(t, tvs):
             cls = "PYDUP"
         elif isinstance(t, ast.Name) and t.id in R.values() and pol and L.group_min_width().get(t.id, 0) >= 1:
@@ -2495,7 +2499,9 @@ def _judge_find_offsets(rep: Report, M: "ReaderModel", m: FunctionInfo, b: str) 
             p_ = parent(c)
             if isinstance(p_, ast.Assign) and len(p_.targets) == 1 and isinstance(p_.targets[0], ast.Name):
                 pos = p_.targets[0].id
-            failed = pos is not None and any(a[0] == "eq" and a[3] and _is_name(a[1], pos) and unparse(a[2]) == "-1" for a in _atoms(cfg, n))
+            elif isinstance(p_, ast.NamedExpr) and isinstance(p_.target, ast.Name):
+                pos = p_.target.id  # while (pos := buf.find(sep, start)) == -1 ...
+            failed = pos is not None and any(a[0] == "eq" and a[3] and _is_name(_strip_walrus(a[1]), pos) and unparse(a[2]) == "-1" for a in _atoms(cfg, n))
             grown = any("append" in M.events(m, b, x) for x in _between(cfg, st, n))
             if failed and not grown and cfg.dominates(st, n):
                 rep.ok(rid, k2, m.module.site(n), "only after the search over the whole buffer failed, before anything is appended")
@@ -3398,7 +3404,7 @@ def _v2_consts(corpus: Corpus, fi: FunctionInfo, roles: dict, depth: int = 0, ou
             out["location suffix"].add(_cstr(n.args[0]))
         if isinstance(n, ast.Call) and fi.module.resolve(dotted(n.func) or "") in ("re.sub", "re.subn") and len(n.args) >= 3 and _is_name(n.args[2], roles["loc"]) and _cstr(n.args[0]) in ("\\$$", "\\$\\Z", "[$]$", "[$]\\Z"):
             out["location suffix"].add("$")
-        if isinstance(n, ast.Call) and isinstance(n.func, ast.Attribute) and n.func.attr == "split" and _is_name(n.func.value, roles["type"]) and n.args and _cstr(n.args[0]) is not None:
+        if isinstance(n, ast.Call) and isinstance(n.func, ast.Attribute) and n.func.attr in ("split", "rsplit", "partition", "rpartition") and _is_name(n.func.value, roles["type"]) and n.args and _cstr(n.args[0]) is not None:
             out["substring tests"].add(_cstr(n.args[0]))  # the separator plays the role of the substring test
     if top:
         for d_ in out.pop("\0d"):
@@ -3748,14 +3754,14 @@ def r5_constants(corpus: Corpus, rep: Report, tier: str):
     if uri_e is None:
         raise Unsupported(f"{ts.fq}: the uri of the stored item was not found")
     # every expression the uri can come from
-    srcs_, work_, seen_ = [], [uri_e], set()
+    srcs_, work_, seen_ = [], [_inline(corpus, ts, uri_e)], set()
     while work_:
         x = work_.pop()
         srcs_.append(x)
         for n_ in ast.walk(x):
             if isinstance(n_, ast.Name) and n_.id not in seen_:
                 seen_.add(n_.id)
-                work_ += [d.value for d in ts.local_nodes() if isinstance(d, ast.Assign) and any(_is_name(t_, n_.id) for t_ in d.targets)]
+                work_ += [_inline(corpus, ts, d.value) for d in ts.local_nodes() if isinstance(d, ast.Assign) and any(_is_name(t_, n_.id) for t_ in d.targets)]
     s_join = {S.fi.module.resolve(dotted(c.func) or "") for c in S.fi.local_nodes() if isinstance(c, ast.Call) and S.fi.module.resolve(dotted(c.func) or "") in IDENTITY_CALLS}
     joins = [c for x in srcs_ for c in ast.walk(x) if isinstance(c, ast.Call) and ts.module.resolve(dotted(c.func) or "") in s_join]
     uses_base = any(_cstr(n_.slice) == "base_url" for x in srcs_ for n_ in ast.walk(x) if isinstance(n_, ast.Subscript)) or any(isinstance(n_, ast.Call) and isinstance(n_.func, ast.Attribute) and n_.func.attr == "get" and n_.args and _cstr(n_.args[0]) == "base_url" for x in srcs_ for n_ in ast.walk(x))
@@ -4057,6 +4063,30 @@ def mutants(corpus: Corpus):
             ], "a position in")
         else:
             out.append(("c18-line-end-searched-in-new-chunk-only", "readline has no `while (pos := buffer.find(sep)) ...` loop"))
+    # the refactored shapes of round 13, each with the defect the rule must still see
+    if rl is not None and rb is not None:
+        M_ = _reader(corpus)
+        wl2 = find_node(rl, lambda n: isinstance(n, ast.While) and any(isinstance(x, ast.NamedExpr) for x in ast.walk(n.test)))
+        if wl2 is not None and len(wl2.body) == 1:
+            ne2 = [x for x in ast.walk(wl2.test) if isinstance(x, ast.NamedExpr)][0]
+            i2 = " " * wl2.col_offset
+            sep2 = ast.get_source_segment(src, ne2.value.args[0])
+            add("c18-local-search-offset-advanced-after-read", "C18.R4", wl2, f"searched = 0\n{i2}while ({ne2.target.id} := {M_.B}.find({sep2}, searched)) == -1 and not {M_.E}:\n{i2}    {ast.get_source_segment(src, wl2.body[0])}\n{i2}    searched = len({M_.B})", "bytes were appended after the search")
+        else:
+            out.append(("c18-local-search-offset-advanced-after-read", "readline has no walrus search loop with a one-statement body"))
+    bif2 = find_node(ts, lambda n: isinstance(n, ast.If) and any(isinstance(c, ast.Call) and ts.module.resolve(dotted(c.func) or "") in IDENTITY_CALLS for b_ in n.body for c in ast.walk(b_)))
+    if bif2 is not None and isinstance(bif2.body[0], ast.Assign) and isinstance(bif2.body[0].targets[0], ast.Name):
+        lv = bif2.body[0].targets[0].id
+        last_top2 = inv.tree.body[-1]
+        add2("c18-location-helper-ignores-base-url", "C18.R5", [
+            (bif2, f"{lv} = _c18_resolve_location({unparse(bif2.test)}, {lv})"),
+            (last_top2, ast.get_source_segment(src, last_top2) + "\n\n\ndef _c18_resolve_location(base_url, loc):\n    return loc if base_url else loc\n"),
+        ], "location includes the base url")
+    else:
+        out.append(("c18-location-helper-ignores-base-url", "to_sphinx has no `if base_url: loc = join(...)` block"))
+    if colon_if is not None and isinstance(spa, ast.Assign) and isinstance(spa.targets[0], ast.Tuple) and len(spa.targets[0].elts) == 2:
+        d2_, o2_ = (unparse(e) for e in spa.targets[0].elts)
+        add2("c18-rpartition-with-tested-separator", "C18.R2", [(colon_if, f"{d2_}, colon, {o2_} = {R['type']}.rpartition(\":\")\n{' ' * colon_if.col_offset}if not colon:\n{' ' * colon_if.col_offset}    continue"), (spa, "pass")], "LAST ':'")
     # --- reverts of the round-10 repairs
     # 24b7429: the decompressor's eof is tested after the final flush
     if rcc is not None:
